@@ -17,6 +17,14 @@ point (`checkHedgeMaxPrimal_sound`, `checkHedgeMaxDual_sound`, `checkHedgeMinDua
 `checkHedge*_reindex_sound` with the verified permutations `hedgeSigma2`, `cloneSigma2`); min <= max; closed forms
 cos^2(pi/8), 0 (perfect hedging), 3/4, 9/16.
 
+Stream `ext_embedding` (scheme B, feasibility-embedding check; Lean: `ext_embed_psd`, `ext_embed_blocks`, `ext_embed_normalised`,
+`ext_embed_objective`, `ext_npa_sound_det`, `unent_le_ns`): the cvxpy problems built by `commuting_measurement_value_upper_bound(k)`
+(`npa_constraints(mat, k, referee_dim = d)`, d = 2..3) and by `nonsignaling_value()` are recorded in-process; unentangled strategies
+(all / sampled pairs of answer functions x exact rational pure and mixed referee states rho) are written into the captured variables as
+R = rho (x) z z^T (z from the Lean model), K(.,.|x,y) = E_(f x, g y) (x) rho; every captured constraint and every declared variable
+attribute must hold to 1e-10 and the captured objective must equal Re tr(M_fg rho) (Lean `avgOperator`, recomputed with Fractions).
+Numerically (1e-9) the same for random commuting projective measurements on an entangled tripartite state.
+
 Tie checks (exact, integer data): toqito's `partial_trace` with the sys/dim arguments the programs use, the code's
 permutation operators, the code's formula for the cloning operator and `avgOperator` against the Lean model."""
 from __future__ import annotations
@@ -28,6 +36,7 @@ from fractions import Fraction
 import numpy as np
 
 from ..cert import DM, chol_factor, frac_json
+from ..common import InfraError
 from ..pool import Result, fold, run_pool, worker_driver
 from .. import qgen
 
@@ -35,15 +44,22 @@ RULE = ("extended games: referee dimension 2..3, |A|,|B|,|X|,|Y| in 1..3 (at mos
         "predicate operators V V^H / 2^k from random integer matrices (not symmetric under exchanging the players), dyadic question "
         "distributions with occasional zeros; corpus: the 'echo' game (constant answers lose), BB84 game; hedging: Q = exact dyadic image "
         "of random real/complex PSD 4x4 operators of rank 1..4 (n=1) and of Q1 (x) Q2 or generic 16x16 PSD operators (n=2), corpus "
-        "Molina-Watrous operators; cloning: 2..4 real qubit states as column vectors with dyadic priors, reps 1..2, corpus Wiesner. "
+        "Molina-Watrous operators; ext_embedding: fixed list of shapes (d, A, B, X, Y) with d in 2..3 and alphabets 1..3 (unequal, both orders, one trivial player), "
+        "per shape one generic complex game (all operators non-zero with complex off-diagonal entries, all probabilities positive) and one random real game, levels 1, 2 "
+        "(small alphabets) and '1+ab', all or 36 (thorough 200) sampled pairs of answer functions, referee states pure / mixed / real rational; non-trivial = both "
+        "players have a choice or unequal alphabets and the game is complex or asymmetric; cloning: 2..4 real qubit states as column vectors with dyadic priors, reps 1..2, corpus Wiesner. "
         "non-trivial (games) = certified interval narrower than 1e-4 and best function pair beats the best constant pair by >= 1e-2 "
         "or players have unequal alphabets; (hedging/cloning) = certified interval narrower than 1e-4 and optimum >= 1e-2 away from "
         "the trivial bounds tr(Q)/a and b*lambda_max(Q) (max) resp. 0 and tr(Q)/a (min); distinct = hash of the exact inputs and the function called")
 ASSUMPTIONS = [
     "toqito computes with the float inputs it is given; the instance certified is their exact dyadic image (difference <= 1e-15 relative)",
     "all programs are solved by cvxpy's default solver (SCS, eps 1e-4): tolerance 1e-3 on returned values (DESIGN.md 4.4), 2e-3 on primal/dual agreement",
-    "the NPA level-k relaxation and the non-signalling program are compared as returned floats only (their soundness as relaxations is not certified here); "
-    "the see-saw lower bound is an achieved value of a quantum strategy by construction of the two SDPs",
+    "the optima of the NPA level-k relaxation and of the non-signalling program are compared as returned floats; their constraint systems are tied to the Lean theorems by "
+    "the feasibility embedding (every unentangled strategy is a feasible point of the captured problem with the right objective), which shows that the value cannot drop "
+    "below the unentangled value for a reason other than the solver; the see-saw lower bound is an achieved value of a quantum strategy by construction of the two SDPs",
+    "ext_embedding: cvxpy evaluates the captured constraint/objective expressions faithfully (Constraint.violation(), Expression.value, Variable.project); PSD constraints are "
+    "evaluated by the harness as 'Hermitian and smallest eigenvalue >= -1e-10'; declared variable attributes (hermitian=True, real) are treated as constraints; the float image of a "
+    "rational rho differs from rho by <= 1e-16 per entry, hence the tolerance 1e-10 (observed residuals <= 1e-14); the quantum embedding is float linear algebra (tolerance 1e-9)",
     "the cloning operator Q for two repetitions is Q1 (x) Q1 as computed in floating point by the code; the certified instance is the exact image of that float array",
     "the see-saw start unitaries are made reproducible by seeding toqito.rand.random_unitary inside the harness process",
 ]
@@ -710,6 +726,665 @@ def tie_checks(ctx):
 
 
 # ------------------------------------------------------------------------------------------------
+# Part 4: stream ext_embedding — feasibility embedding into the problems that toqito builds (scheme B, last paragraph)
+#
+# The cvxpy `Problem` of `commuting_measurement_value_upper_bound(k)` / `nonsignaling_value()` is recorded inside the worker process
+# (cvxpy.Problem.solve replaced by a recorder that aborts the call; restored in `finally`).  An unentangled strategy — answer
+# functions (f, g) and a referee state rho — is the point
+#     R = rho (x) z z^T   (code layout: R[p*dim + i, q*dim + j] = rho[p, q] z_i z_j;  block (i, j) = R[i::dim, j::dim] = z_i z_j rho),
+#     K(.,.|x, y) = E_{f x, g y} (x) rho,
+# with z = values of the words under (f, g) from the Lean model (`c07_npa_embed`; theorems `ext_embed_psd`, `ext_embed_blocks`,
+# `ext_embed_normalised`, `ext_embed_objective`).  Every captured constraint must hold at that point and the captured objective
+# must equal Re tr(M_{f,g} rho) (Lean `c09_avgop`, recomputed independently with Fractions from prob_mat/pred_mat).
+
+EMB_TOL = 1e-10   # deterministic embeddings: 0/1 word values and the float image of a rational rho
+QEMB_TOL = 1e-9   # moments of random commuting projective measurements on a random tripartite state (float algebra)
+# (d, A, B, X, Y)
+EXT_SHAPES_QUICK = [(2, 2, 2, 2, 2), (2, 2, 3, 2, 1), (2, 3, 2, 1, 2), (3, 2, 2, 2, 2), (2, 2, 3, 2, 2), (2, 3, 2, 2, 3), (3, 2, 3, 3, 2),
+                    (2, 3, 3, 2, 2), (2, 2, 2, 3, 3), (3, 3, 2, 2, 3), (2, 1, 3, 1, 2), (3, 3, 1, 2, 1)]
+EXT_SHAPES_MORE = [(3, 3, 3, 2, 2), (2, 3, 3, 3, 3), (3, 2, 3, 2, 3), (3, 3, 2, 3, 1), (2, 2, 2, 1, 3), (3, 1, 2, 3, 3)]
+
+
+class _Captured(Exception):
+    pass
+
+
+def _capture(fn):
+    """runs fn() with cvxpy.Problem.solve replaced (this process only, restored afterwards) by a recorder that keeps the Problem
+    object and aborts the call; returns the recorded problems"""
+    import cvxpy
+
+    captured = []
+    orig = cvxpy.Problem.solve
+
+    def fake(self, *a, **kw):
+        captured.append(self)
+        raise _Captured()
+
+    cvxpy.Problem.solve = fake
+    try:
+        try:
+            fn()
+        except _Captured:
+            pass
+    finally:
+        cvxpy.Problem.solve = orig
+    return captured
+
+
+def _psd_residual(M):
+    """residual of `M >> 0` read as: M Hermitian and positive semidefinite (cvxpy's own PSD.residual symmetrises with the plain
+    transpose, which is blind to the imaginary part)"""
+    M = np.asarray(M, dtype=complex)
+    if M.ndim != 2 or M.shape[0] != M.shape[1]:
+        return float("inf")
+    herm = float(np.max(np.abs(M - M.conj().T))) if M.size else 0.0
+    lam = float(np.linalg.eigvalsh((M + M.conj().T) / 2)[0]) if M.size else 0.0
+    return max(herm, -lam, 0.0)
+
+
+def _attr_residual(v):
+    """distance of the value of a cvxpy variable from the set its declaration allows (hermitian=True, real, symmetric, ...):
+    declared attributes are constraints of the program although they are not members of `Problem.constraints`"""
+    val = np.asarray(v.value)
+    r = float(np.max(np.abs(np.asarray(v.project(val)) - val))) if val.size else 0.0
+    if not v.is_complex() and np.iscomplexobj(val):
+        r = max(r, float(np.max(np.abs(val.imag))))
+    return r
+
+
+def _residuals(P):
+    """(max residual, [(index, kind, residual, text) ...]) of the current variable values in the captured problem: every member of
+    P.constraints and the declared attributes of every variable"""
+    out = []
+    worst = 0.0
+    for idx, c in enumerate(P.constraints):
+        kind = type(c).__name__
+        if kind == "PSD":
+            r = _psd_residual(c.args[0].value)
+        else:
+            v = c.violation()
+            r = float(np.max(np.abs(v))) if np.size(v) else 0.0
+        if not np.isfinite(r):
+            r = float("inf")
+        worst = max(worst, r)
+        out.append((idx, kind, r, str(c)[:160]))
+    for v in P.variables():
+        r = _attr_residual(v)
+        worst = max(worst, r)
+        out.append((-1, "attributes:" + (v.name() or "var")[:30], r, f"declared attributes {[k for k, a in v.attributes.items() if a]} of variable {v.name()} {v.shape}"))
+    return worst, out
+
+
+def _bad(rows, tol):
+    return [[i, k, r, t] for i, k, r, t in rows if not (r <= tol)]
+
+
+def _bucket(r):
+    if r == 0:
+        return "0"
+    if not np.isfinite(r):
+        return "inf"
+    return f"1e{int(np.ceil(np.log10(r)))}"
+
+
+def _qfr(x):
+    fr = Fraction(x)
+    return [fr.numerator, fr.denominator]
+
+
+def rand_rho(rng, d, kind):
+    """exact rational density operator: sum_k w_k v_k v_k^H / trace with small complex integer vectors; kind 'pure' | 'mixed' | 'real'"""
+    rank = 1 if kind == "pure" else int(rng.integers(2, d + 1))
+    while True:
+        re = np.zeros((d, d), dtype=object)
+        im = np.zeros((d, d), dtype=object)
+        for _ in range(rank):
+            vr = [int(t) for t in rng.integers(-3, 4, size=d)]
+            vi = [0] * d if kind == "real" else [int(t) for t in rng.integers(-3, 4, size=d)]
+            w = int(rng.integers(1, 4))
+            for p in range(d):
+                for q in range(d):  # v_p conj(v_q)
+                    re[p, q] += w * (vr[p] * vr[q] + vi[p] * vi[q])
+                    im[p, q] += w * (vi[p] * vr[q] - vr[p] * vi[q])
+        tr = sum(re[p, p] for p in range(d))
+        offdiag_im = any(im[p, q] != 0 for p in range(d) for q in range(d))
+        if tr > 0 and (kind == "real" or offdiag_im):
+            break
+    return {"kind": kind, "re": [[_qfr(Fraction(int(re[p, q]), int(tr))) for q in range(d)] for p in range(d)],
+            "im": [[_qfr(Fraction(int(im[p, q]), int(tr))) for q in range(d)] for p in range(d)]}
+
+
+def _rho_arrays(rj):
+    fre = np.array([[Fraction(*e) for e in row] for row in rj["re"]], dtype=object)
+    fim = np.array([[Fraction(*e) for e in row] for row in rj["im"]], dtype=object)
+    return fre, fim, fre.astype(float) + 1j * fim.astype(float)
+
+
+def gen_game_shape(rng, shape, cplx, generic=False):
+    """game of a given shape (d, A, B, X, Y): PSD referee operators V V^H / 2^k from random integer matrices (rank 1..d, complex ones with
+    genuinely complex off-diagonal entries), dyadic question distribution; generic: no zero operator, no zero probability"""
+    d, A, B, X, Y = shape
+    pred = np.zeros((d, d, A, B, X, Y), dtype=complex if cplx else float)
+    for a, b, x, y in itertools.product(range(A), range(B), range(X), range(Y)):
+        while True:
+            r = int(rng.integers(1, d + 1))
+            V = rng.integers(-3, 4, size=(d, r)).astype(complex)
+            if cplx:
+                V = V + 1j * rng.integers(-3, 4, size=(d, r))
+            if not generic and rng.integers(8) == 0:
+                V = V * 0
+            Pm = V @ V.conj().T
+            if not generic or (np.trace(Pm).real > 0 and (not cplx or np.max(np.abs(Pm.imag)) > 0)):
+                break
+        t = max(1.0, float(np.trace(Pm).real))
+        Pm = Pm / float(1 << int(np.ceil(np.log2(t))))
+        pred[:, :, a, b, x, y] = Pm if cplx else Pm.real
+    cells = X * Y
+    if cells == 1:
+        prob = np.array([[1.0]])
+    else:
+        while True:
+            pr = qgen.dyadic_probs(rng, cells, bits=5)
+            if not generic or min(pr) > 0:
+                break
+        if not generic and cells >= 3 and rng.integers(4) == 0:
+            pr[0], pr[1] = pr[0] + pr[1], 0.0
+        prob = np.array(pr).reshape(X, Y)
+    return {"kind": "generic" if generic else "random", "prob": prob, "pred": pred, "cplx": cplx}
+
+
+def _exact_value(prob, pred, f, g, fre, fim):
+    """sum_xy pi(x,y) Re tr(P[f x, g y, x, y] rho), exactly, from the arrays handed to toqito (independent of Lean and of cvxpy)"""
+    d = pred.shape[0]
+    tot = Fraction(0)
+    for x in range(prob.shape[0]):
+        for y in range(prob.shape[1]):
+            Pm = pred[:, :, f[x], g[y], x, y]
+            s = Fraction(0)
+            for p in range(d):
+                for q in range(d):  # Re(P[p,q] rho[q,p])
+                    s += Fraction(float(np.real(Pm[p, q]))) * fre[q, p] - Fraction(float(np.imag(Pm[p, q]))) * fim[q, p]
+            tot += Fraction(float(prob[x, y])) * s
+    return tot
+
+
+def _lean_value(drv, gj, d, f, g, fre, fim):
+    """Re tr(avgOperator G f g * rho) with the Lean model's exact operator (theorem ext_embed_objective / avgOperator_eq_avgMat)"""
+    r = drv.ask("c09_avgop", dict(gj, f=[int(t) for t in f], g=[int(t) for t in g]))
+    mre, mim = _lean_mat(r, d, d)
+    return sum((mre[p, q] * fre[q, p] - mim[p, q] * fim[q, p] for p in range(d) for q in range(d)), Fraction(0))
+
+
+def _word_values(words, f, g):
+    out = []
+    for w in words:
+        v = 1
+        for s in w:
+            if s.player == "Alice":
+                v *= int(f[s.question] == s.answer)
+            elif s.player == "Bob":
+                v *= int(g[s.question] == s.answer)
+        out.append(v)
+    return out
+
+
+def _level_args(k, A, X, B, Y):
+    from toqito.helper import npa_hierarchy as nh
+    args = {"ao": A, "ai": X, "bo": B, "bi": Y, "k": k}
+    if isinstance(k, str):
+        args["conf_order"] = [list(c) for c in nh._parse(k)[1]]
+    return args
+
+
+def _ext_npa_vars(P, shape):
+    """(R, {(x, y): K_xy}, how) of the captured problem of ExtendedNonlocalGame.commuting_measurement_value_upper_bound"""
+    import re
+    d, A, B, X, Y = shape
+    named, rvar = {}, None
+    for v in P.variables():
+        nm = v.name()
+        mm = re.search(r"\|\s*(\d+)\s*,\s*(\d+)\s*\)", nm)
+        if nm == "R":
+            rvar = v
+        elif mm and tuple(v.shape) == (A * d, B * d):
+            named[(int(mm.group(1)), int(mm.group(2)))] = v
+    if rvar is not None and sorted(named) == [(x, y) for x in range(X) for y in range(Y)] and len(P.variables()) == X * Y + 1:
+        return rvar, named, "names"
+    objv = sorted(P.objective.variables(), key=lambda v: v.id)
+    rest = [v for v in P.variables() if all(v is not o for o in objv)]
+    if len(objv) == X * Y and len(rest) == 1 and all(tuple(v.shape) == (A * d, B * d) for v in objv):
+        return rest[0], {(x, y): objv[x * Y + y] for x in range(X) for y in range(Y)}, "creation-order"
+    raise InfraError(f"cannot identify the variables of the captured extended NPA problem: {[(v.name(), v.shape) for v in P.variables()]}")
+
+
+def _ext_desc(fn, inst, k, f, g, rho):
+    prob, pred = np.asarray(inst["prob"], dtype=float), np.asarray(inst["pred"])
+    d, _, A, B, X, Y = pred.shape
+    return {"part": "ext_embed", "fn": fn, "kind": inst["kind"], "shape": [d, A, B, X, Y], "cplx": inst["cplx"], "k": k, "prob": prob.tolist(), "pred": _ri(pred),
+            "f": [int(t) for t in f], "g": [int(t) for t in g], "rho": rho}
+
+
+def _ext_nontrivial(shape, cplx, f, g):
+    d, A, B, X, Y = shape
+    return bool(A * B >= 2 and X * Y >= 2 and (A != B or X != Y or cplx) and (len(set(f)) > 1 or len(set(g)) > 1 or A != B or X == 1 or Y == 1))
+
+
+def _rand_unitary(rng, d):
+    q, r = np.linalg.qr(rng.normal(size=(d, d)) + 1j * rng.normal(size=(d, d)))
+    return q * (np.diag(r) / np.abs(np.diag(r)))
+
+
+def _rand_projective(rng, d, n_out):
+    cuts = np.sort(rng.integers(0, d + 1, size=n_out - 1))
+    ranks = np.diff(np.concatenate([[0], cuts, [d]]))
+    u = _rand_unitary(rng, d)
+    out, pos = [], 0
+    for r in ranks:
+        cols = u[:, pos:pos + int(r)]
+        out.append(cols @ cols.conj().T)
+        pos += int(r)
+    return out
+
+
+def _quantum_strategy(shape, seed):
+    """random commuting-measurement strategy: tripartite pure state u in C^d (x) C^dA (x) C^dB, projective measurements A_x (x) 1, 1 (x) B_y.
+    returns (psi[p] = <p|u> as vectors of H, a_ops, b_ops)"""
+    d, A, B, X, Y = shape
+    rng = np.random.default_rng([9, seed])
+    dA, dB = int(rng.integers(max(2, A), A + 2)), int(rng.integers(max(2, B), B + 2))
+    a_ops = [[np.kron(p, np.eye(dB)) for p in _rand_projective(rng, dA, A)] for _ in range(X)]
+    b_ops = [[np.kron(np.eye(dA), p) for p in _rand_projective(rng, dB, B)] for _ in range(Y)]
+    u = rng.normal(size=(d, dA * dB)) + 1j * rng.normal(size=(d, dA * dB))
+    u /= np.linalg.norm(u)
+    return u, a_ops, b_ops, (dA, dB)
+
+
+def _quantum_blocks(shape, u, a_ops, b_ops):
+    """K(a,b|x,y)[p, q] = <p| Tr_H((1 (x) A_a^x B_b^y) |u><u|) |q> = <psi_q| A B |psi_p>"""
+    d, A, B, X, Y = shape
+    return {(a, b, x, y): np.array([[np.vdot(u[q], a_ops[x][a] @ (b_ops[y][b] @ u[p])) for q in range(d)] for p in range(d)])
+            for a in range(A) for b in range(B) for x in range(X) for y in range(Y)}
+
+
+def _quantum_value(shape, prob, pred, u, a_ops, b_ops):
+    """sum pi(x,y) <u| P_abxy (x) A_a^x B_b^y |u>, directly on the tripartite vector"""
+    d, A, B, X, Y = shape
+    uv = u.reshape(-1)
+    tot = 0.0
+    for a in range(A):
+        for b in range(B):
+            for x in range(X):
+                for y in range(Y):
+                    if prob[x, y] != 0:
+                        tot += float(prob[x, y]) * float(np.real(np.vdot(uv, np.kron(pred[:, :, a, b, x, y], a_ops[x][a] @ b_ops[y][b]) @ uv)))
+    return float(tot)
+
+
+def work_ext_npa(task, res: Result):
+    """capture the problem of commuting_measurement_value_upper_bound(k) (referee dimension d > 1) and embed unentangled strategies"""
+    from toqito.nonlocal_games.extended_nonlocal_game import ExtendedNonlocalGame
+    from toqito.helper import npa_hierarchy as nh
+    warnings.filterwarnings("ignore")
+    inst, k = task["inst"], task["k"]
+    drv = worker_driver()
+    prob, pred = np.asarray(inst["prob"], dtype=float), np.asarray(inst["pred"])
+    d, _, A, B, X, Y = pred.shape
+    shape = (d, A, B, X, Y)
+    base = _ext_desc("ext_npa_embed", inst, k, [], [], None)
+    try:
+        game = ExtendedNonlocalGame(prob.copy(), pred.copy())
+        probs = _capture(lambda: game.commuting_measurement_value_upper_bound(k))
+    except Exception as e:  # noqa: BLE001
+        res.case(base, True, "ext/npa/raise")
+        res.violation(f"ExtendedNonlocalGame.commuting_measurement_value_upper_bound({k!r}) raises {type(e).__name__}: {str(e)[:160]} while building its problem for a valid game of shape (d,A,B,X,Y)={shape}",
+                      {"function": "commuting_measurement_value_upper_bound", "args": base, "exception": f"{type(e).__name__}: {str(e)[:300]}", "shape": list(shape), "theorem": "ext_embed_blocks"})
+        return
+    if len(probs) != 1:
+        raise InfraError(f"expected one cvxpy problem from commuting_measurement_value_upper_bound, captured {len(probs)}")
+    P = probs[0]
+    res.count("ext/npa/problems-captured")
+    res.count("ext/npa/constraints-captured", len(P.constraints))
+    rvar, kvars, how = _ext_npa_vars(P, shape)
+    res.count(f"ext/npa/variables-identified-by-{how}")
+    words = nh._gen_words(k, A, X, B, Y)
+    dim = len(words)
+    if tuple(rvar.shape) != (d * dim, d * dim):
+        res.case(base, True, "ext/npa/moment-matrix-size")
+        res.violation(f"moment matrix of the captured problem has shape {tuple(rvar.shape)}, expected d*|words| = {d}*{dim} (k={k!r}, shape {shape})",
+                      {"function": "npa_constraints(referee_dim)", "args": base, "impl": list(rvar.shape), "model": [d * dim, d * dim], "theorem": "ext_embed_blocks"})
+        return
+    gj = game_json(prob, pred)
+    largs = _level_args(k, A, X, B, Y)
+    worst = 0.0
+    first = True
+    for f, g, ri in task["strategies"]:
+        rj = task["rhos"][ri]
+        fre, fim, rho = _rho_arrays(rj)
+        desc = _ext_desc("ext_npa_embed", inst, k, f, g, rj)
+        res.case(desc, _ext_nontrivial(shape, inst["cplx"], f, g), f"ext/npa/k={k}/d{d}/{'c' if inst['cplx'] else 'r'}/{rj['kind']}")
+        m = drv.ask("c07_npa_embed", {**largs, "f": list(f), "g": list(g), "self_check": first})
+        if "reject" in m:
+            raise InfraError(f"driver rejected {largs} f={f} g={g}: {m}")
+        if first and m["model_violated"]:
+            raise InfraError(f"Lean model: the embedded scalar point violates model constraints {m['model_violated'][:3]} (contradicts npa_sound_det)")
+        z = [Fraction(*v) for v in m["z"]]
+        zc = _word_values(words, f, g)
+        if len(z) != dim or any(a != b for a, b in zip(z, zc)):
+            res.violation(f"word values of (f, g) = ({f}, {g}) over toqito's _gen_words({k!r}, {A}, {X}, {B}, {Y}) differ from the Lean model's detZ (word lists differ)",
+                          {"function": "npa_hierarchy._gen_words", "args": desc, "impl": [int(t) for t in zc], "model": [str(t) for t in z], "theorem": "ext_embed_blocks (genWords)"})
+            return
+        zf = np.array([float(t) for t in z])
+        rvar.save_value(np.kron(rho, np.outer(zf, zf)))
+        for (x, y), v in kvars.items():
+            E = np.zeros((A, B))
+            E[f[x], g[y]] = 1.0
+            v.save_value(np.kron(E, rho))
+        w, rows = _residuals(P)
+        bad = _bad(rows, EMB_TOL)
+        worst = max(worst, w if not bad else 0.0)
+        obj = float(P.objective.expr.value)
+        exact = _exact_value(prob, pred, f, g, fre, fim)
+        lean = _lean_value(drv, gj, d, f, g, fre, fim)
+        if lean != exact:
+            raise InfraError(f"Lean avgOperator value {lean} differs from the harness' exact Re tr(M rho) = {exact} on {desc['shape']} f={f} g={g}")
+        if bad:
+            res.violation(
+                f"commuting_measurement_value_upper_bound({k!r}), game (d,A,B,X,Y)={shape}: the unentangled strategy f={list(f)}, g={list(g)}, rho ({rj['kind']}) — moment matrix "
+                f"rho (x) z z^T, K(.,.|x,y) = E_(f x, g y) (x) rho — violates {len(bad)} of the {len(P.constraints)} constraints / variable declarations of the program the code "
+                f"builds, e.g. {bad[0]}: the relaxation excludes a real strategy, its optimum is not an upper bound",
+                {"function": "commuting_measurement_value_upper_bound / npa_constraints(referee_dim>1)", "args": desc, "violated": bad[:6], "z": [int(t) for t in z],
+                 "theorem": "ext_embed_psd, ext_embed_blocks, ext_embed_normalised"})
+        if not abs(Fraction(obj) - exact) <= Fraction(1, 10 ** 10):
+            res.violation(
+                f"commuting_measurement_value_upper_bound({k!r}): the captured objective at the strategy f={list(f)}, g={list(g)}, rho is {obj!r}; the strategy's value "
+                f"Re tr(M_fg rho) is {float(exact)!r}",
+                {"function": "commuting_measurement_value_upper_bound (objective)", "args": desc, "impl": obj, "model": str(exact), "theorem": "ext_embed_objective"})
+        if first:
+            # negative controls: the evaluation machinery must reject points that are not feasible
+            r2 = np.kron(rho, np.outer(zf, zf))
+            r2[0, 0] += 1.0
+            rvar.save_value(r2)
+            if not _bad(_residuals(P)[1], EMB_TOL):
+                raise InfraError("negative control: a moment matrix with R[0,0] raised by 1 passed every captured constraint")
+            rvar.save_value(np.kron(rho, np.outer(zf, zf)))
+            if np.max(np.abs(rho.imag)) > 0:
+                for (x, y), v in kvars.items():
+                    E = np.zeros((A, B))
+                    E[f[x], g[y]] = 1.0
+                    v.save_value(np.kron(E, rho.T))
+                if not _bad(_residuals(P)[1], EMB_TOL):
+                    # legitimately possible when no word links a K block to an R block for this strategy (a player with a single
+                    # answer has no measurement words): counted, not an error
+                    res.count("ext/npa/negative-control-transposed-blocks-not-linked")
+                else:
+                    res.count("ext/npa/negative-control-transposed-blocks-detected")
+            res.count("ext/npa/negative-control-detected")
+        first = False
+    res.count(f"ext/npa/max-residual-bucket/{_bucket(worst)}")
+    # numerically: a random commuting-measurement strategy with an entangled tripartite state
+    for seed in task.get("quantum_seeds", []):
+        u, a_ops, b_ops, dims = _quantum_strategy(shape, seed)
+        vecs = []
+        for p in range(d):
+            for w_ in words:
+                v = u[p]
+                for s in reversed(w_):
+                    if s.player == "Alice":
+                        v = a_ops[s.question][s.answer] @ v
+                    elif s.player == "Bob":
+                        v = b_ops[s.question][s.answer] @ v
+                vecs.append(v)
+        vm = np.array(vecs).T  # column p*dim + i = W_i psi_p
+        rvar.save_value((vm.conj().T @ vm).conj())  # R[(p,i),(q,j)] = <W_j psi_q, W_i psi_p>
+        blocks = _quantum_blocks(shape, u, a_ops, b_ops)
+        for (x, y), v in kvars.items():
+            v.save_value(np.block([[blocks[a, b, x, y] for b in range(B)] for a in range(A)]))
+        value = _quantum_value(shape, prob, pred, u, a_ops, b_ops)
+        desc = dict(_ext_desc("ext_npa_quantum", inst, k, [], [], None), seed=int(seed), dims=list(dims))
+        res.case(desc, A * B >= 2 and X * Y >= 2, f"ext/npa-quantum/k={k}/d{d}")
+        w, rows = _residuals(P)
+        bad = _bad(rows, QEMB_TOL)
+        obj = float(P.objective.expr.value)
+        if bad:
+            res.violation(
+                f"commuting_measurement_value_upper_bound({k!r}), game {shape}: the moments of random commuting projective measurements on an entangled tripartite state "
+                f"(local dims {dims}, seed {seed}) violate {len(bad)} constraints beyond {QEMB_TOL}, e.g. {bad[0]} — a commuting-measurement strategy is cut off",
+                {"function": "commuting_measurement_value_upper_bound / npa_constraints(referee_dim>1) (quantum strategy)", "args": desc, "violated": bad[:6],
+                 "theorem": "soundness for commuting-measurement strategies (numerical check; Johnston-Mittal-Russo-Watrous 2016, Sec. 5)"})
+        else:
+            res.count(f"ext/npa-quantum/max-residual-bucket/{_bucket(w)}")
+        if not abs(obj - value) <= QEMB_TOL:
+            res.violation(f"commuting_measurement_value_upper_bound({k!r}): captured objective {obj!r} differs from the value {value!r} of the commuting-measurement strategy (seed {seed})",
+                          {"function": "commuting_measurement_value_upper_bound (objective, quantum strategy)", "args": desc, "impl": obj, "model": value, "theorem": "objective = <u| P (x) A B |u>"})
+
+
+def _probe(d):
+    """a fixed generic Hermitian d x d matrix (entries without arithmetic relations to the dyadic game data)"""
+    r = np.random.default_rng(20240917)
+    m = r.normal(size=(d, d)) + 1j * r.normal(size=(d, d))
+    return (m + m.conj().T) / 2
+
+
+def _probe_targets(shape, prob, pred):
+    d, A, B, X, Y = shape
+    T = _probe(d)
+    return {(a, b, x, y): float(prob[x, y] * np.real(np.trace(pred[:, :, a, b, x, y].conj().T @ T)))
+            for a in range(A) for b in range(B) for x in range(X) for y in range(Y)}
+
+
+def _targets_distinct(target, sep=1e-7):
+    vals = sorted(target.values())
+    return not (any(abs(v) < sep for v in vals) or any(b - a < sep for a, b in zip(vals, vals[1:])))
+
+
+def _ext_ns_identify(P, shape, prob, pred):
+    """{(a, b, x, y): K-block variable} of the captured nonsignaling_value problem.  The variables carry no names: the blocks are the
+    variables of the objective; block v belongs to (a, b, x, y) when the objective at "v = T, every other variable 0" equals
+    prob[x, y] * Re tr(pred[:, :, a, b, x, y] T) for a fixed generic Hermitian T.  When this does not single out one index per block
+    (ties, zero operators, or an objective that is wrong) the creation order of the variables (loops a, b, x, y) is used."""
+    d, A, B, X, Y = shape
+    objv = sorted(P.objective.variables(), key=lambda v: v.id)
+    idx = [(a, b, x, y) for a in range(A) for b in range(B) for x in range(X) for y in range(Y)]
+    if len(objv) != len(idx) or any(tuple(v.shape) != (d, d) for v in objv):
+        raise InfraError(f"nonsignaling_value: expected {len(idx)} blocks {d}x{d} in the objective, found {[v.shape for v in objv][:5]}... ({len(objv)})")
+    by_order = dict(zip(idx, objv))
+    T = _probe(d)
+    target = _probe_targets(shape, prob, pred)
+    if not _targets_distinct(target):
+        return by_order, "creation-order"
+    zero = np.zeros((d, d), dtype=complex)
+    for v in P.variables():
+        v.save_value(zero)
+    found = {}
+    for v in objv:
+        v.save_value(T)
+        c = float(P.objective.expr.value)
+        v.save_value(zero)
+        hit = [t for t, q in target.items() if abs(q - c) <= 1e-12]
+        if len(hit) != 1 or hit[0] in found:
+            return by_order, "creation-order"
+        found[hit[0]] = v
+    return found, "objective-probing"
+
+
+def _propagate(P):
+    """give a value to every variable that an equality constraint `expression == variable` determines (sigma, rho, tau)"""
+    import cvxpy
+
+    changed = True
+    while changed:
+        changed = False
+        for c in P.constraints:
+            if type(c).__name__ != "Equality":
+                continue
+            lhs, rhs = c.args
+            for u, w in ((lhs, rhs), (rhs, lhs)):
+                if isinstance(w, cvxpy.Variable) and w.value is None and u.value is not None:
+                    w.save_value(np.array(u.value, dtype=complex))
+                    changed = True
+    return [v for v in P.variables() if v.value is None]
+
+
+def _ns_set(P, kvars, blocks):
+    kset = {id(v) for v in kvars.values()}
+    for v in P.variables():
+        if id(v) not in kset:
+            v.value = None
+    for t, v in kvars.items():
+        v.save_value(np.array(blocks[t], dtype=complex))
+    unset = _propagate(P)
+    for v in unset:
+        v.save_value(np.zeros(v.shape, dtype=complex))
+    return len(unset)
+
+
+def work_ext_ns(task, res: Result):
+    """capture the problem of ExtendedNonlocalGame.nonsignaling_value and embed unentangled strategies (deterministic behaviour times rho)"""
+    from toqito.nonlocal_games.extended_nonlocal_game import ExtendedNonlocalGame
+    warnings.filterwarnings("ignore")
+    inst = task["inst"]
+    drv = worker_driver()
+    prob, pred = np.asarray(inst["prob"], dtype=float), np.asarray(inst["pred"])
+    d, _, A, B, X, Y = pred.shape
+    shape = (d, A, B, X, Y)
+    base = _ext_desc("ext_ns_embed", inst, None, [], [], None)
+    try:
+        game = ExtendedNonlocalGame(prob.copy(), pred.copy())
+        probs = _capture(lambda: game.nonsignaling_value())
+    except Exception as e:  # noqa: BLE001
+        res.case(base, True, "ext/ns/raise")
+        res.violation(f"ExtendedNonlocalGame.nonsignaling_value raises {type(e).__name__}: {str(e)[:160]} while building its problem for a valid game of shape {shape}",
+                      {"function": "nonsignaling_value", "args": base, "exception": f"{type(e).__name__}: {str(e)[:300]}", "shape": list(shape), "theorem": "unent_le_ns"})
+        return
+    if len(probs) != 1:
+        raise InfraError(f"expected one cvxpy problem from nonsignaling_value, captured {len(probs)}")
+    P = probs[0]
+    res.count("ext/ns/problems-captured")
+    res.count("ext/ns/constraints-captured", len(P.constraints))
+    kvars, how = _ext_ns_identify(P, shape, prob, pred)
+    res.count(f"ext/ns/blocks-identified-by-{how}")
+    gj = game_json(prob, pred)
+    idx = list(kvars)
+    worst = 0.0
+    first = True
+    for f, g, ri in task["strategies"]:
+        rj = task["rhos"][ri]
+        fre, fim, rho = _rho_arrays(rj)
+        desc = _ext_desc("ext_ns_embed", inst, None, f, g, rj)
+        res.case(desc, _ext_nontrivial(shape, inst["cplx"], f, g), f"ext/ns/d{d}/{'c' if inst['cplx'] else 'r'}/{rj['kind']}")
+        unset = _ns_set(P, kvars, {t: rho * (1.0 if (f[t[2]] == t[0] and g[t[3]] == t[1]) else 0.0) for t in idx})
+        if unset:
+            res.count("ext/ns/variables-not-determined-by-equalities", unset)
+        w, rows = _residuals(P)
+        bad = _bad(rows, EMB_TOL)
+        worst = max(worst, w if not bad else 0.0)
+        obj = float(P.objective.expr.value)
+        exact = _exact_value(prob, pred, f, g, fre, fim)
+        lean = _lean_value(drv, gj, d, f, g, fre, fim)
+        if lean != exact:
+            raise InfraError(f"Lean avgOperator value {lean} differs from the harness' exact Re tr(M rho) = {exact}")
+        if bad:
+            res.violation(
+                f"nonsignaling_value, game (d,A,B,X,Y)={shape}: the unentangled strategy f={list(f)}, g={list(g)}, rho ({rj['kind']}) — K(a,b|x,y) = [a=f x][b=g y] rho, marginal "
+                f"operators from the equality constraints — violates {len(bad)} of the {len(P.constraints)} constraints / variable declarations, e.g. {bad[0]}: the program excludes a real strategy",
+                {"function": "ExtendedNonlocalGame.nonsignaling_value", "args": desc, "violated": bad[:6], "identified_by": how, "theorem": "unent_le_ns"})
+        if not abs(Fraction(obj) - exact) <= Fraction(1, 10 ** 10):
+            res.violation(
+                f"nonsignaling_value: the captured objective at the strategy f={list(f)}, g={list(g)}, rho is {obj!r}; the strategy's value Re tr(M_fg rho) is {float(exact)!r}",
+                {"function": "ExtendedNonlocalGame.nonsignaling_value (objective)", "args": desc, "impl": obj, "model": str(exact), "identified_by": how, "theorem": "unent_le_ns (nsValue = unentValue)"})
+        if first:
+            t0 = idx[0]
+            kvars[t0].save_value(-np.eye(d, dtype=complex))
+            if not _bad(_residuals(P)[1], EMB_TOL):
+                raise InfraError("negative control: a block K = -1 passed every captured constraint of nonsignaling_value")
+            res.count("ext/ns/negative-control-detected")
+        first = False
+    res.count(f"ext/ns/max-residual-bucket/{_bucket(worst)}")
+    for seed in task.get("quantum_seeds", []):
+        u, a_ops, b_ops, dims = _quantum_strategy(shape, seed)
+        _ns_set(P, kvars, _quantum_blocks(shape, u, a_ops, b_ops))
+        value = _quantum_value(shape, prob, pred, u, a_ops, b_ops)
+        desc = dict(_ext_desc("ext_ns_quantum", inst, None, [], [], None), seed=int(seed), dims=list(dims))
+        res.case(desc, A * B >= 2 and X * Y >= 2, f"ext/ns-quantum/d{d}")
+        w, rows = _residuals(P)
+        bad = _bad(rows, QEMB_TOL)
+        obj = float(P.objective.expr.value)
+        if bad:
+            res.violation(f"nonsignaling_value, game {shape}: the assemblage of a commuting-measurement strategy (local dims {dims}, seed {seed}) violates {len(bad)} constraints beyond {QEMB_TOL}, e.g. {bad[0]}",
+                          {"function": "ExtendedNonlocalGame.nonsignaling_value (quantum strategy)", "args": desc, "violated": bad[:6], "identified_by": how, "theorem": "commuting-measurement assemblages are non-signalling (numerical check)"})
+        else:
+            res.count(f"ext/ns-quantum/max-residual-bucket/{_bucket(w)}")
+        if not abs(obj - value) <= QEMB_TOL:
+            res.violation(f"nonsignaling_value: captured objective {obj!r} differs from the value {value!r} of the commuting-measurement strategy (seed {seed})",
+                          {"function": "ExtendedNonlocalGame.nonsignaling_value (objective, quantum strategy)", "args": desc, "impl": obj, "model": value, "identified_by": how, "theorem": "objective = <u| P (x) A B |u>"})
+
+
+def _pick_strategies(rng, shape, cap):
+    d, A, B, X, Y = shape
+    total = A ** X * B ** Y
+    if total <= cap:
+        return [(list(f), list(g)) for f in itertools.product(range(A), repeat=X) for g in itertools.product(range(B), repeat=Y)]
+    out, seen = [], set()
+    while len(out) < cap:
+        f = [int(t) for t in rng.integers(0, A, size=X)]
+        g = [int(t) for t in rng.integers(0, B, size=Y)]
+        if (tuple(f), tuple(g)) not in seen:
+            seen.add((tuple(f), tuple(g)))
+            out.append((f, g))
+    return out
+
+
+def ext_tasks(ctx, quick):
+    rng = ctx.rng
+    cap = 36 if quick else 200
+    k2_budget = 4 if quick else 7  # (A-1) X + (B-1) Y: size of the alphabet of projector symbols
+    shapes = EXT_SHAPES_QUICK + ([] if quick else EXT_SHAPES_MORE)
+    npa, ns = [], []
+    for shape in shapes:
+        d, A, B, X, Y = shape
+        for cplx, generic in ((True, True), (False, False)) + (() if quick else ((True, False),)):
+            inst = gen_game_shape(rng, shape, cplx, generic)
+            while generic and not _targets_distinct(_probe_targets(shape, inst["prob"], inst["pred"])):
+                inst = gen_game_shape(rng, shape, cplx, generic)  # generic games identify the unnamed blocks of nonsignaling_value through its objective
+            rhos = [rand_rho(rng, d, "pure"), rand_rho(rng, d, "mixed"), rand_rho(rng, d, "real")]
+            if d == 2:
+                rhos.append({"kind": "mixed", "re": [[[3, 4], [1, 4]], [[1, 4], [1, 4]]], "im": [[[0, 1], [-1, 4]], [[1, 4], [0, 1]]]})
+            nsym = (A - 1) * X + (B - 1) * Y
+            levels = [1] + ([2] if nsym <= k2_budget else []) + (["1+ab"] if (not quick or 4 < nsym <= 6) else [])
+            for k in levels:
+                strat = [(f, g, int(rng.integers(len(rhos)))) for f, g in _pick_strategies(rng, shape, cap)]
+                for n in range(0, max(1, len(strat)), 40):
+                    npa.append({"inst": inst, "k": k, "rhos": rhos, "strategies": strat[n:n + 40],
+                                "quantum_seeds": [int(t) for t in rng.integers(0, 2 ** 31, size=(2 if quick else 5))] if n == 0 else []})
+            strat = [(f, g, int(rng.integers(len(rhos)))) for f, g in _pick_strategies(rng, shape, cap)]
+            ns.append({"inst": inst, "rhos": rhos, "strategies": strat, "quantum_seeds": [int(t) for t in rng.integers(0, 2 ** 31, size=(2 if quick else 5))]})
+    return npa, ns
+
+
+def ext_embedding(ctx, quick):
+    import time as _t
+    t0 = _t.time()
+    npa, ns = ext_tasks(ctx, quick)
+    run_pool(ctx, work_ext_npa, npa)
+    run_pool(ctx, work_ext_ns, ns)
+    h = ctx.hist
+
+    def _mx(prefix):
+        bs = [kk[len(prefix):] for kk in h if kk.startswith(prefix)]
+        order = lambda b: -1e9 if b == "0" else (1e9 if b == "inf" else float(b[2:]))  # noqa: E731
+        return max(bs, key=order) if bs else None
+    ctx.extra["ext_embedding"] = {
+        "npa_problems_captured": h.get("ext/npa/problems-captured", 0), "npa_constraints_captured": h.get("ext/npa/constraints-captured", 0),
+        "npa_embeddings": sum(v for kk, v in h.items() if kk.startswith("ext/npa/k=")), "npa_quantum_embeddings": sum(v for kk, v in h.items() if kk.startswith("ext/npa-quantum/k=")),
+        "npa_max_residual_bucket": _mx("ext/npa/max-residual-bucket/"), "npa_quantum_max_residual_bucket": _mx("ext/npa-quantum/max-residual-bucket/"),
+        "ns_problems_captured": h.get("ext/ns/problems-captured", 0), "ns_embeddings": sum(v for kk, v in h.items() if kk.startswith("ext/ns/d")),
+        "ns_quantum_embeddings": sum(v for kk, v in h.items() if kk.startswith("ext/ns-quantum/d")), "ns_max_residual_bucket": _mx("ext/ns/max-residual-bucket/"),
+        "tolerances": {"deterministic": EMB_TOL, "quantum": QEMB_TOL}}
+    ctx.extra.setdefault("phase_wall_s", {})["ext_embedding"] = round(_t.time() - t0, 1)
+
+
+# ------------------------------------------------------------------------------------------------
 
 
 def _game_calls(inst, with_seesaw, with_npa2):
@@ -784,6 +1459,8 @@ def run(ctx, model_ok=True):
     ctx.extra["phase_wall_s"]["cloning"] = round(_t.time() - t0, 1)
     ctx.extra["tolerances"] = {"scs_value": TAU, "primal_dual_agreement": 2 * TAU}
     ctx.extra["certified_interval_width_bound"] = WIDTH_OK
+    # ---- feasibility embedding into the captured NPA / non-signalling programs of extended games
+    ext_embedding(ctx, quick)
 
 
 def replay(ctx, rec):
@@ -795,6 +1472,16 @@ def replay(ctx, rec):
         fn = a.get("fn")
         calls = [fn] if fn in ("unentangled", "nonsignaling", "npa1", "npa2", "seesaw") else ["unentangled", "nonsignaling", "npa1", "seesaw"]
         work_game((inst, calls, int(rec.get("seed", 0))), res)
+    elif part == "ext_embed":
+        inst = {"kind": a.get("kind", "replay"), "prob": np.array(a["prob"], dtype=float), "pred": _from_ri(a["pred"]), "cplx": a.get("cplx", False)}
+        if inst["cplx"]:
+            inst["pred"] = np.asarray(inst["pred"], dtype=complex)
+        fn = a.get("fn", "")
+        d, A, B, X, Y = a["shape"]
+        rho = a.get("rho") or rand_rho(np.random.default_rng(0), d, "mixed")
+        strat = [(a["f"], a["g"], 0)] if a.get("f") else [([0] * X, [0] * Y, 0)]
+        task = {"inst": inst, "k": a.get("k") or 1, "rhos": [rho], "strategies": strat, "quantum_seeds": [a["seed"]] if "seed" in a else []}
+        (work_ext_ns if fn.startswith("ext_ns") else work_ext_npa)(task, res)
     elif part == "hedge":
         work_hedge({"kind": a.get("kind", "replay"), "Q": _from_ri(a["Q"]), "n": a["n"], "cplx": a.get("cplx", False)}, res)
     elif part == "clone":
